@@ -214,6 +214,9 @@ struct Snap {
     m_cc: Cc14Model,
     m_pn: PnModel,
     obs: PollObs,
+    taken_at: Duration,
+    probe: Vec<Option<ParameterNumberMessage>>,
+    probed: Scn,
 }
 
 pub struct RunResult {
@@ -731,7 +734,12 @@ impl<'a> Exec<'a> {
             (*m, *m, *twin, *fresh)
         })?;
         let solo = solo_copy;
-        self.snap = Some(Box::new(Snap { main, idle_twin, solo, twin, fresh, m_cc: self.m_cc.clone(), m_pn: self.m_pn.clone(), obs: self.obs.clone() }));
+        // what does a copy of this checkpoint answer when every channel is polled one timeout from now?
+        let mut probed = main;
+        let probe = self.probe_polls(&mut probed, self.now.saturating_add(self.timeout), 1);
+        clk::set_now(self.now);
+        let probe = probe?;
+        self.snap = Some(Box::new(Snap { main, idle_twin, solo, twin, fresh, m_cc: self.m_cc.clone(), m_pn: self.m_pn.clone(), obs: self.obs.clone(), taken_at: self.now, probe, probed }));
         Ok(())
     }
 
@@ -744,6 +752,17 @@ impl<'a> Exec<'a> {
         // an idle copy must not have moved while the original was being driven
         let eq = api(L::scanner_eq, || snap.main.cc == snap.idle_twin.cc && snap.main.pn == snap.idle_twin.pn && snap.main.po == snap.idle_twin.po)?;
         self.sink.check(R::C17_copy, eq, || "two idle copies taken at the same moment differ after the original was driven on".into());
+        // the idle checkpoint must still answer what its sibling answered when it was taken (same
+        // clock reading for this copy: it has not seen any later time)
+        {
+            let mut p2 = api(L::scanner_copy, || snap.main)?;
+            let r2 = self.probe_polls(&mut p2, snap.taken_at.saturating_add(self.timeout), 1);
+            clk::set_now(self.now);
+            let r2 = r2?;
+            let same = api(L::msg_eq, || r2 == snap.probe)?;
+            let same_state = api(L::scanner_eq, || p2.cc == snap.probed.cc && p2.pn == snap.probed.pn && p2.po == snap.probed.po)?;
+            self.sink.check(R::C17_copy, same && same_state, || format!("a checkpoint that sat idle while the original was driven on no longer answers polls the way its sibling copy did when it was taken: then {:?}, now {:?} (end states equal: {})", snap.probe, r2, same_state));
+        }
         let solo = &mut self.solo;
         let (m, tw, fr) = api(L::scanner_copy, || {
             for (d, s) in solo.iter_mut().zip(snap.solo.iter()) {
@@ -775,29 +794,45 @@ impl<'a> Exec<'a> {
         Ok(())
     }
 
-    /// Feeds `burst` (and polls the touched channels at the deadline) to `s`, collecting everything
-    /// it returns. Used to probe copies; clock: `at` for the feeds, `at + timeout` for the polls.
-    fn probe_copy(&self, s: &mut Scn, burst: &[[u8; 3]], at: Duration) -> Result<Vec<(Res3, Option<ParameterNumberMessage>)>, Panicked> {
+    /// Polls all 16 channels of `s` at clock reading `at` (`passes` times), collecting the results.
+    fn probe_polls(&self, s: &mut Scn, at: Duration, passes: usize) -> Result<Vec<Option<ParameterNumberMessage>>, Panicked> {
+        let mut out = Vec::with_capacity(16 * passes);
+        clk::set_now(at);
+        for _ in 0..passes {
+            for c in 0..16u8 {
+                out.push(api(L::polling_poll, || s.po.poll(Channel::new(c)))?);
+            }
+        }
+        Ok(out)
+    }
+
+    /// Probes a copy: polls every channel at `at + timeout`, then feeds `burst` at that reading and
+    /// polls each touched channel one timeout later. Everything returned is collected. The copy
+    /// sees a monotonic clock; the caller restores the hook clock afterwards.
+    #[allow(clippy::type_complexity)]
+    fn probe_copy(&self, s: &mut Scn, burst: &[[u8; 3]], at: Duration, poll_passes: usize) -> Result<(Vec<Option<ParameterNumberMessage>>, Vec<(Res3, Option<ParameterNumberMessage>)>), Panicked> {
+        let t1 = at.saturating_add(self.timeout);
+        let t2 = t1.saturating_add(self.timeout);
+        let polls = self.probe_polls(s, t1, poll_passes)?;
         let mut out = Vec::with_capacity(burst.len());
         for b in burst {
             if b[0] < 0x80 || b[1] > 127 || b[2] > 127 {
                 continue;
             }
-            clk::set_now(at);
+            clk::set_now(t1);
             let raw = api(L::ingest_from_bytes, || RawShortMessage::from_bytes((b[0], U7::new(b[1]), U7::new(b[2]))))?;
             if let Ok(raw) = raw {
                 let r = feed_scn(s, &raw, *b, REPR_RAW)?;
                 let mut polled = None;
                 if b[0] < 0xF0 {
                     let c = b[0] & 0x0F;
-                    clk::set_now(at.saturating_add(self.timeout));
+                    clk::set_now(t2);
                     polled = api(L::polling_poll, || s.po.poll(Channel::new(c)))?;
                 }
                 out.push((r, polled));
             }
         }
-        clk::set_now(self.now);
-        Ok(out)
+        Ok((polls, out))
     }
 
     fn do_fork(&mut self, k: u8, burst: &[[u8; 3]]) -> Result<(), Panicked> {
@@ -810,20 +845,20 @@ impl<'a> Exec<'a> {
         // Independence of copies, behaviourally: probe copy p1 now; then drive the divergent copy
         // (reversed burst, at a much later clock reading); then probe copy p2 exactly as p1 was
         // probed. Whatever the divergent copy did must not show in p2 (hidden shared state would).
-        let r1 = self.probe_copy(&mut p1, burst, self.now);
+        let r1 = self.probe_copy(&mut p1, burst, self.now, 1);
         clk::set_now(self.now);
         let r1 = r1?;
         let rev: Vec<[u8; 3]> = burst.iter().rev().copied().collect();
         let later = self.now.saturating_add(self.timeout.saturating_mul(3)).saturating_add(Duration::from_secs(1));
-        let rd = self.probe_copy(&mut div, &rev, later);
+        let rd = self.probe_copy(&mut div, &rev, later, 2);
         clk::set_now(self.now);
         rd?;
-        let r2 = self.probe_copy(&mut p2, burst, self.now);
+        let r2 = self.probe_copy(&mut p2, burst, self.now, 1);
         clk::set_now(self.now);
         let r2 = r2?;
         let same = api(L::msg_eq, || r1 == r2)?;
         let same_state = api(L::scanner_eq, || p1.cc == p2.cc && p1.pn == p2.pn && p1.po == p2.po)?;
-        self.sink.check(R::C17_copy, same && same_state, || format!("two copies of one scanner were fed the same burst {:02x?} at the same clock reading, a third copy was driven in between: results differ ({:?} vs {:?}) or end states differ (equal: {})", burst, r1, r2, same_state));
+        self.sink.check(R::C17_copy, same && same_state, || format!("two copies of one scanner were polled on all channels and fed the same burst {:02x?} at the same clock readings, a third copy was driven in between: results differ ({:?} vs {:?}) or end states differ (equal: {})", burst, r1, r2, same_state));
         let m = &self.main;
         let eq = api(L::scanner_eq, || saved.cc == m.cc && saved.pn == m.pn && saved.po == m.po)?;
         self.sink.check(R::C17_copy, eq, || "feeding copies changed the original".into());
